@@ -121,6 +121,53 @@ CHECKS = {
              "DESIGN.md 11.4. 'Time bounded by the input size' is observed only as the absence of a KDF call on the no-passphrase path.",
         technique="TLA+ DER/PEM/padding decoders model-checked exhaustively over all short strings by TLC; replay on the real decoders and mutation sweep of key files; code->spec trace validation in TLC",
     ),
+    "C02": dict(
+        category="exploration",
+        text="Every cipher of the statement (AES, DES, 3DES, Blowfish, CAST-128, RC2, RC4, Salsa20, ChaCha20/XChaCha20) and every mode (ECB, CBC, CFB with any segment size, OFB, CTR with every "
+             "Counter layout, OpenPGP, EAX over all six block ciphers, GCM, CCM incl. the 6-byte AAD header, SIV, OCB, KW, KWP, ChaCha20-Poly1305) is transcribed in TLA+; for generated (cipher, mode, key, "
+             "IV/nonce/counter parameters, message) points TLC computes the expected ciphertext and tag from the iv/nonce attribute the object exposes (also when the library chose it) and judges the real "
+             "output, the decryption with a fresh object, and decrypt-direction calls on arbitrary data. TLC is a reference evaluator here: the inputs are sampled at boundary lengths, not enumerated.",
+        design_ref="DESIGN.md section 6, C02",
+        note="Trusted: TLC; the TLA+ transcriptions, each pinned by its standard's vectors and by OpenSSL/GnuPG-produced values as ASSUMEs checked at setup. The library's entropy source is replaced in the "
+             "recorder by a seeded generator (the code that chooses, uses and exposes the nonce is untouched). Messages above 5 KiB and the 10-byte CCM length header are not covered.",
+        technique="standards transcribed as a TLA+ data layer evaluated by TLC on recorded calls (code->spec trace validation)",
+    ),
+    "C08": dict(
+        category="model_checking",
+        text="sys/KeyExport models the export/import option space (7 key classes x private/public x format x pkcs x protection x prot_params x compress x passphrase = 7 128 combinations) with the "
+             "documented legality matrix and the expected container kind, plus an equality pool of keys that differ in exactly one attribute; TLC checks the model's invariants and emits every "
+             "combination; each is replayed on 70 real keys (RSA 512-1024 with unusual exponents and short/high-bit CRT members, DSA, nine curves with leading-zero coordinates). The exported bytes are "
+             "read by TLC itself with the strict DER reader and transcribed structure definitions (PKCS#1, SPKI, PKCS#8, RFC 5915/8410, Dss-Parms, SEC1 with witnessed curve equation, RFC 8032/7748 raw, "
+             "OpenSSH, PEM labels); legacy PEM encryption and PBES2 containers (PBKDF2 over 11 hashes or scrypt x 3DES/AES-CBC/AES-GCM) are opened in TLC when the KDF costs <= 40 PRF calls; import "
+             "with the right, a wrong and no passphrase and the == table are judged.",
+        design_ref="DESIGN.md section 6, C08",
+        note="Trusted: TLC; KeyFormats.tla and its foundations, pinned by about 50 files produced with the openssl CLI and ssh-keygen as ASSUMEs. With default iteration counts the container is judged "
+             "by structure and the decryption by the round trip. Regions the documentation leaves unspecified are named operators (any refusal accepted, any bytes still judged).",
+        technique="TLA+ model of the export option space and key equality checked by TLC; spec->code replay of every combination; code->spec trace validation with an independent reader of the formats transcribed in TLA+",
+    ),
+    "C14": dict(
+        category="exploration",
+        text="Signed big integers are transcribed in TLA+ over base-2^12 limbs (data/BigNat, BigInt: + - x, comparison, shifts, bit operations, byte conversion defined directly; division, modulo, "
+             "pow, inverse, gcd, lcm, sqrt, modular sqrt and Jacobi symbol as relations certified by untrusted witnesses the recorder supplies; exceptions are part of the relation). Every operation "
+             "of the Integer classes is recorded on all three back-ends over operand shape classes (signs, word-boundary sizes, 1 bit to 4096 bits, int/Integer operands, in-place forms) and judged "
+             "by TLC; primality verdicts are judged against ground truth by construction (table primes; Carmichael numbers, strong and Lucas pseudoprimes, squares, close primes with factor witnesses), "
+             "Miller-Rabin rounds against exact certified rounds, generated primes for exact bit size. TLC is a reference evaluator here.",
+        design_ref="DESIGN.md section 6, C14",
+        note="Trusted: TLC; BigNat/BigInt (small identities and Python-int-produced products as ASSUMEs; a wrong witness can only make TLC refuse). Regions where the documentation is silent are named "
+             "in BigInt.tla (shift counts >= 65536, pow without modulus with exponent > 256, modulus 1 for the raw C helpers: mont.c documents modulus >= 3).",
+        technique="big-integer relations transcribed in TLA+ and certified with untrusted witnesses, evaluated by TLC on recorded calls (code->spec trace validation)",
+    ),
+    "C16": dict(
+        category="model_checking",
+        text="sys/Backends models the configuration lattice (the Numbers.py selection chain for 8 environments; use_aesni x use_clmul x CPU) and generates every job; TLC checks the model against its closed "
+             "form. Each job is run under every configuration (integer back-ends in their own processes with PYCRYPTODOME_DISABLE_GMP / forced native) and one record carries (value, value type, exception "
+             "class) per configuration: TLC requires them identical, equal to the BigInt/AES/GCM specification where it defines the value, and the selected back-end equal to the model's. AES over 12 modes "
+             "x key sizes x lengths 0..257 x unaligned memoryview offsets, GHASH 0..9 blocks with odd nonce lengths, 19 RSA/DSA/ECC/primality operations on seeded tapes, single-precondition violations.",
+        design_ref="DESIGN.md section 6, C16",
+        note="Trusted: TLC; BigInt, AES, AesAead transcriptions. CPUs without AES-NI/CLMUL cannot be emulated: only the software switch is exercised. Agreement on the exception class is not required when two "
+             "preconditions are violated at once.",
+        technique="TLA+ configuration model checked by TLC and used as the job generator; differential records judged by TLC against each other and against the TLA+ data layer (trace validation)",
+    ),
 }
 
 NOT_APPLICABLE = {
